@@ -98,13 +98,14 @@ def run(tier, seed):
     with mp.get_context("fork").Pool(NPROC) as pool:
         runs = pool.map(GR.run_generate, gjobs, chunksize=8)
     ok_runs = [r for r in runs if r["status"] == "ok"]
+    chk.extra["runs_that_modified_the_callers_initial_blocks (diagnostic)"] = sum(bool(r.get("callers_initial_blocks_modified")) for r in runs)
     for r in runs:
         if r["status"] != "ok":
             chk.violation({"part": "generate", "what": "raised", "exc": r["exc"], "pattern": r["pname"]},
                           f"generate_problem raised {r['exc']} on pattern {r['pname']}", {"pname": r["pname"], "seed": r["seed"], "opts": r["opts"]})
     path = chk.dir / "gen.ndjson"
     write_ndjson(path, [{k: r[k] for k in ("t", "pattern", "initial", "events")} for r in ok_runs])
-    res3 = run_tlc("Trace_Gen", "Trace_Gen", workdir=chk.dir, env={"TRACE_FILE": str(path)}, timeout=3000)
+    res3 = run_tlc("Trace_Gen", "Trace_Gen", workdir=chk.dir, env={"TRACE_FILE": str(path)}, timeout=3000, workers=4)
     chk.add_tlc(res3)
     best = {}
     for v in res3.records:
@@ -149,19 +150,21 @@ def run(tier, seed):
                            "initial_a": r["initial"], "initial_b": r2.get("initial")})
     # a schedule of seeds in ONE process: re-seeding with a seed used before (0 included) must replay that run, whatever
     # was drawn in between
-    for pname in ("A", "G", "H2"):
+    for pname, reuse in (("A", False), ("G", False), ("H2", False), ("H3", False), ("G", True), ("H2", True), ("H3", True)):
         opts = {"p_pre": 1, "p_sat": 0.6, "p_uniq": 0.05, "pretest": False, "penalty": True, "max_steps": 6,
-                "solve_initial": False, "temp": 5.0, "explicit_neighbor": False}
+                "solve_initial": False, "temp": 5.0, "explicit_neighbor": False, "reuse": reuse}
         seen = {}
         for k, sd in enumerate([0, 7, 0, 12345, 0, 7, 12345]):
             r = GR.run_generate((k, pname, sd, opts))
             rep += 1
-            chk.note_case(f"schedule/{pname}/{k}/{sd}", True)
+            chk.note_case(f"schedule/{pname}/{reuse}/{k}/{sd}", True)
             key = (r["status"], json.dumps(r.get("candidates")), json.dumps(r["events"][-1] if r.get("events") else None))
             if sd in seen and seen[sd] != key:
-                chk.violation({"part": "reproducibility", "what": "re-seeding-does-not-replay", "seed_zero": sd == 0},
+                chk.violation({"part": "reproducibility", "what": "re-seeding-does-not-replay", "seed_zero": sd == 0,
+                               "same_builder_objects": reuse},
                               f"pattern {pname}: use_deterministic_prng(True, seed={sd}) a second time in the same process gives a different run",
-                              {"pname": pname, "seed": sd, "position_in_schedule": k, "schedule": [0, 7, 0, 12345, 0, 7, 12345]})
+                              {"pname": pname, "seed": sd, "position_in_schedule": k, "schedule": [0, 7, 0, 12345, 0, 7, 12345],
+                               "same_builder_objects_for_every_run": reuse})
             seen.setdefault(sd, key)
     zjobs = []
     for s in range(3 if tier == "quick" else 12):
